@@ -3,7 +3,7 @@
 Nothing is imported or executed; everything is read with ``ast``.
 A vanished anchor raises AnalysisError (exit 2), never a silent pass.
 """
-import ast, os, hashlib
+import ast, os, hashlib, re
 from . import REPO
 
 
@@ -11,12 +11,81 @@ class AnalysisError(Exception):
     """The analysis itself cannot proceed (anchor vanished, construct not understood)."""
 
 
+_EXC_NAME = re.compile(r'^([A-Z]\w*(Error|Exception|Warning)|StopIteration|KeyboardInterrupt|SystemExit)$')
+
+
+def _message_like(n):
+    """an exception argument that is only a human-readable message"""
+    if isinstance(n, ast.Constant) and isinstance(n.value, str):
+        return True
+    if isinstance(n, ast.JoinedStr):
+        return True
+    if isinstance(n, ast.BinOp) and isinstance(n.op, ast.Mod) and isinstance(n.left, ast.Constant) and isinstance(n.left.value, str):
+        return True
+    if isinstance(n, ast.Call) and isinstance(n.func, ast.Attribute) and n.func.attr == 'format' \
+            and isinstance(n.func.value, ast.Constant) and isinstance(n.func.value.value, str):
+        return True
+    return False
+
+
+class Canon(ast.NodeTransformer):
+    """Syntax-level canonicalisation applied to the repo's modules and to the restatements alike, for spellings
+    that Python defines to mean the same thing and that no property speaks about:
+      x: T = e -> x = e (bare `x: T` dropped);  super(C, self) -> super() inside class C;
+      raise E -> raise E();  message-only arguments of a raised exception and the message of an assert are dropped."""
+
+    def __init__(self, spec=False):
+        self.cls = []
+        self.spec = spec      # restatements are bare functions: the class argument of super() cannot be checked there
+
+    def visit_ClassDef(self, node):
+        self.cls.append(node.name)
+        self.generic_visit(node)
+        self.cls.pop()
+        return node
+
+    def visit_AnnAssign(self, node):
+        self.generic_visit(node)
+        if node.value is None:
+            return ast.copy_location(ast.Pass(), node)
+        return ast.copy_location(ast.Assign(targets=[node.target], value=node.value), node)
+
+    def visit_Call(self, node):
+        self.generic_visit(node)
+        if isinstance(node.func, ast.Name) and node.func.id == 'super' and len(node.args) == 2 and not node.keywords \
+                and isinstance(node.args[0], ast.Name) and (self.spec or (self.cls and node.args[0].id == self.cls[-1])) \
+                and isinstance(node.args[1], ast.Name) and node.args[1].id == 'self':
+            node.args = []
+        return node
+
+    def visit_Raise(self, node):
+        self.generic_visit(node)
+        e = node.exc
+        if isinstance(e, ast.Name) and _EXC_NAME.match(e.id):
+            node.exc = ast.copy_location(ast.Call(func=e, args=[], keywords=[]), e)
+        elif isinstance(e, ast.Call) and isinstance(e.func, ast.Name) and _EXC_NAME.match(e.func.id) \
+                and e.args and not e.keywords and all(_message_like(a) for a in e.args):
+            e.args = []
+        return node
+
+    def visit_Assert(self, node):
+        self.generic_visit(node)
+        node.msg = None
+        return node
+
+
+def canon(tree, spec=False):
+    tree = Canon(spec).visit(tree)
+    ast.fix_missing_locations(tree)
+    return tree
+
+
 class Module:
     def __init__(self, relpath, src):
         self.relpath = relpath                      # e.g. crysp/sha.py
         self.name = relpath[:-3].replace('/', '.')  # crysp.sha
         self.src = src
-        self.tree = ast.parse(src, filename=relpath)
+        self.tree = canon(ast.parse(src, filename=relpath))
         self.functions = {}   # qualname -> ast.FunctionDef  ("SHA2.update", "rol", "Blake.update.G")
         self.classes = {}     # name -> ast.ClassDef
         self.assigns = {}     # module-level name -> list of ast.Assign/AugAssign nodes (in order)
